@@ -7,6 +7,7 @@
   C17.5 issue aggregation only ever adds bits (| of its sources); an expired key contributes Expired
 """
 import ast
+import re
 
 from sa import verdict
 from sa.interp import Interp, Scenario, Sym, Const, render
@@ -62,7 +63,7 @@ def check_disqualified_arm(rep, prog):
         issues = args[3] if len(args) > 3 else kw.get('issues')
         ops = verdict.or_operands(issues or '')
         has_sources = any('check_soundness' in o for o in ops) and any('check_primitives' in o for o in ops)
-        rep.check(issues is not None and has_sources and args[0] == 'sig' and args[2] == 'subj', 'C17.4', 'PGPKey.verify',
+        rep.check(issues is not None and has_sources and re.match(r'^\$\d+_0$', args[0]) and args[2] == args[0][:-1] + '1', 'C17.4', 'PGPKey.verify',
                   'disqualified arm records %s' % (args,),
                   'when the key is disqualified the record must carry the computed issue set of (sig, subj)', where=w,
                   expected='add_sigsubj(sig, self, subj, <check_primitives | check_soundness>)', found=args)
